@@ -1249,3 +1249,26 @@ Proof.
   rewrite C23 in H3. exact H3.
 Qed.
 
+
+(** * [infer_base_unit] is defined exactly when every unit name has a single reading (F21) *)
+Lemma infer_base_defined r ord a :
+  (∀ k, k ∈ present a ord → ∃ p b, parse_unit_name r k = (p, b) :: nil) →
+  ∃ res, infer_base_unit r ord a = Ok res.
+Proof.
+  intros H. unfold infer_base_unit.
+  assert (G : ∀ l acc, (∀ kv : string * Qc, kv ∈ l → ∃ p b, parse_unit_name r kv.1 = (p, b) :: nil) →
+                       ∃ acc', foldM (infer_step r) l acc = Ok acc').
+  { induction l as [|kv l IH]; intros acc Hl; simpl; [eauto|].
+    destruct (Hl kv ltac:(left)) as (p & b & Hp). unfold infer_step at 1. rewrite Hp. cbn [rbind].
+    apply IH. intros kv' Hin. apply Hl. right. exact Hin. }
+  destruct (G (map (λ k, (k, exp_of a k)) (present a ord)) ([], ∅)) as [[o d] Hod].
+  - intros kv Hin. apply elem_of_list_fmap in Hin as (k & -> & Hk). simpl. apply H. exact Hk.
+  - rewrite Hod. cbn [rbind]. eauto.
+Qed.
+
+Definition ex_dtex := RQ (MFin (mkq 1500 1)) ["dtex"] (mkuc [("dtex", mkq 1 1)]).
+Definition ex_thirds := RQ (MFin (mkq 1 1)) ["hand"; "quart"; "survey_mile"; "gill"]
+  (mkuc [("hand", mkq 2 1); ("quart", mkq 2 1); ("survey_mile", mkq 2 1); ("gill", mkq (-3) 1)]).
+Definition ex_acre := RQ (MFin (mkq 1 1)) ["acre"] (mkuc [("acre", mkq 1 1)]).
+Definition ex_m := RQ (MFin (mkq 1 1)) ["meter"] (mkuc [("meter", mkq 1 1)]).
+Definition ex_in := RQ (MFin (mkq 3 1)) ["inch"] (mkuc [("inch", mkq 1 1)]).
